@@ -206,7 +206,7 @@ def probe_cases(draw):
         members.append([name, ["flagsenum", B1, [["r", 1], ["w", 2]], "kw"]])
         e = ["this", [name, "r"], "attr"]
         consts = [True, False]
-    cons = draw(st.sampled_from(["bytes", "array", "switch", "ite-eq", "ite-cmp", "if", "ifnot", "computed", "padded", "check", "nestedref", "rebuildexpr", "stopif"]))
+    cons = draw(st.sampled_from(["bytes", "array", "switch", "ite-eq", "ite-cmp", "if", "ifnot", "computed", "padded", "check", "nestedref", "parrayref", "rebuildexpr", "stopif"]))
     c = draw(st.sampled_from(consts))
     intlike = prod in ("int", "varint", "const", "constbytes", "computed", "rebuild", "default", "nested", "array", "parray", "bytes", "pstr")
     if cons in ("bytes", "array", "padded", "rebuildexpr") and not intlike:
@@ -248,6 +248,12 @@ def probe_cases(draw):
     elif cons == "nestedref":
         up = ["this", ["_"] + e[1], "attr"] if e[0] == "this" else e
         members.append(["later", ["struct", [["k", B1], ["v", ["ite", ["bin", "==", up, ["const", c]], ["const", b"Y", None], ["const", b"N", None]]]]]])
+    elif cons == "parrayref":
+        # elements of a PrefixedArray run inside the FocusedSeq of its documented expansion: the enclosing Struct is two levels up,
+        # and the expansion's own count is one level up
+        up2 = ["this", ["_", "_"] + e[1], "attr"] if e[0] == "this" else e
+        members.append(["later", ["parray", B1, ["struct", [["k", B1], ["v", ["ite", ["bin", "==", up2, ["const", c]], ["const", b"Y", None], ["const", b"N", None]]],
+                                                           ["n", ["computed", ["this", ["_", "count"], "attr"]]]]]]])
     elif cons == "rebuildexpr":
         members.append(["later", ["rebuild", ["int", 2, False, "b", "alias"], ["bin", "+", ["bin", "*", e, ["const", 3]], ["const", 1]]]])
     else:
